@@ -31,6 +31,7 @@ SOURCES = [
     "src/pylife/strength/fkm_nonlinear/constants.py",
     "src/pylife/strength/damage_parameter.py",
     "src/pylife/strength/fkm_load_distribution.py",
+    "src/pylife/strength/fkm_nonlinear/woehler_fkm_nonlinear.py",
     "src/pylife/stress/rainflow/fkm_nonlinear.py",
     "src/pylife/stress/rainflow/recorders.py",
     "src/pylife/materiallaws/notch_approximation_law.py",
@@ -499,6 +500,14 @@ def par_map(fn, cases, procs):
 class C10(Prop):
     ID = "C10"
     SOURCES = SOURCES
+    # Proofs.BridgeConstsAll sits on Proofs.BridgeC09, i.e. on the definitions TRANSLATED from the current source
+    # (lean/Generated): this check regenerates them itself, like C09 - otherwise it would build against whatever the last
+    # run of C09 (possibly against another tree) left there
+    TRANSLATED = ["WoehlerFkmNonlinear", "FkmLoadDistribution", "FkmConstants"]
+
+    def setup(self, log):
+        from .c09 import C09
+        C09.setup(self, log)
     LEAN_MODULES = ["Proofs.C10", "Proofs.PRAJ", "Proofs.BridgeConstsAll"]
     PARALLEL = 16
     THEOREMS = [
